@@ -66,6 +66,9 @@ class CGenerator:
 
     def visit_StructRef(self, n: c_ast.StructRef) -> str:
         sref = self._parenthesize_unless_simple(n.name)
+        if isinstance(n.name, c_ast.Constant) and n.type == ".":
+            # '1.m' would lex as the floating constant '1.' followed by 'm'
+            sref = "(" + sref + ")"
         return sref + n.type + self.visit(n.field)
 
     def visit_FuncCall(self, n: c_ast.FuncCall) -> str:
